@@ -293,7 +293,7 @@ def req_coq(c):
 
 
 IMPORTS = ("From Coq Require Import String List Bool Arith.\nImport ListNotations.\n"
-           "From VP Require Import Rbac.Syntax Rbac.Model Rbac.Policy Rbac.Props Rbac.Run.\nOpen Scope string_scope.\n")
+           "From VP Require Import Rbac.Syntax Rbac.Model Rbac.Policy Rbac.Apps Rbac.Run.\nOpen Scope string_scope.\n")
 
 
 def describe(c):
@@ -309,7 +309,7 @@ def judge(c, obs, verdict):
     cls = classify(c.app, obs["st"], obs["body"])
     if cls == "X":
         return ["no HTTP answer: %s" % str(obs)[:200]]
-    if cls == "S" and verdict != "granted":
+    if cls == "S" and verdict in ("refused", "none"):      # "unknown": the policy could not be evaluated (reported as a broken tie)
         fails.append("%s %s with credential %s (config %s) was served (HTTP %s) although the documented policy %s"
                      % (c.method, c.path, c.cred, c.rbac, obs["st"],
                         "refuses this credential" if verdict == "refused" else "has no such endpoint"))
